@@ -16,6 +16,7 @@ from xyzpy.gen.combo_runner import combo_runner
 from xyzpy.gen.case_runner import case_runner
 from xyzpy.gen.farming import Runner
 
+CONFORMANCE = ("fakefs", "random")
 FUNCS = CROP_FUNCS
 
 
